@@ -1,5 +1,8 @@
 ----------------------------- MODULE MCResample -----------------------------
 EXTENDS Resample, Json
-EmitCase == (Done /\ kind = "subsample") =>
-    PrintT(ToJson([kind |-> kind, counts |-> counts, want |-> want, err |-> err, out |-> out, weight |-> IF err THEN 0 ELSE Weight(counts, out)]))
+EmitCase == /\ (Done /\ kind = "subsample") =>
+                   PrintT(ToJson([kind |-> kind, counts |-> counts, want |-> want, err |-> err, out |-> out, weight |-> IF err THEN 0 ELSE Weight(counts, out)]))
+            \* downsample: one line per terminal state (m items, maxseqs = want, the kept positions in output order)
+            /\ (Done /\ kind = "downsample") =>
+                   PrintT(ToJson([kind |-> kind, m |-> Len(counts), want |-> want, kept |-> out]))
 =============================================================================
